@@ -5,6 +5,8 @@
 #include "ccl/rslang/RSErrorCodes.hpp"
 #include "ccl/cclMeta.hpp"
 
+#include <limits>
+
 namespace ccl::rslang::detail {
 
 //! Abstract Lexer
@@ -23,6 +25,9 @@ public:
   TokenID lex() {
     lastRead = this->BaseT().DoLex();
     if (lastRead == TokenID::LIT_INTEGER && !IsInt32(Text())) {
+      lastRead = TokenID::INTERRUPT;
+    } else if ((lastRead == TokenID::SMALLPR || lastRead == TokenID::BIGPR || lastRead == TokenID::FILTER) &&
+               !HasValidIndices(Text())) {
       lastRead = TokenID::INTERRUPT;
     }
     return lastRead;
@@ -78,6 +83,30 @@ private:
     const auto length = firstDigit == std::string::npos ? size_t{ 0 } : size(digits) - firstDigit;
     return length < size(maxValue) ||
       (length == size(maxValue) && digits.compare(firstDigit, length, maxValue) <= 0);
+  }
+
+  //! Projection and filter indices start from 1 and are stored as Index: Pr0, pr1,0 or Fi99999 are not valid tokens
+  [[nodiscard]] static bool HasValidIndices(const std::string& token) noexcept {
+    static constexpr size_t prefixLen = 2; // "Pr", "pr", "Fi"
+    static constexpr int32_t maxIndex = std::numeric_limits<Index>::max();
+    int32_t index = 0;
+    bool hasDigits = false;
+    for (size_t i = prefixLen; i <= size(token); ++i) {
+      if (i < size(token) && token[i] != ',') {
+        hasDigits = true;
+        index = index * 10 + (token[i] - '0'); // NOLINT
+        if (index > maxIndex) {
+          return false;
+        }
+      } else {
+        if (!hasDigits || index == 0) {
+          return false;
+        }
+        index = 0;
+        hasDigits = false;
+      }
+    }
+    return true;
   }
 
   [[nodiscard]] TokenData ToInt() const {
